@@ -558,6 +558,12 @@ def _wrap_stacked(ev, has_terminator, humans):
             if not np.all(np.isfinite(f0)) or np.max(np.abs(f0)) > 1e8:
                 c.inconc("stacked_jacob:point-outside-domain")
                 return
+            if np.max(np.abs(g0)) > 1e6:
+                # a diverging Newton iterate (values of 1e14 were seen under a badly conditioned plan): residuals that are
+                # differences of such numbers have an ulp larger than the effect of any finite-difference step on the other
+                # unknowns, so the finite differences are exactly zero there; nothing can be decided at such a point
+                c.inconc("stacked_jacob:point-magnitude-beyond-fd-resolution")
+                return
             text = " ".join(humans)
             feats = tuple(f_ for f_ in ("log", "exp", "sqrt", "logistic", "maximum", "minimum", "abs", "^", "/") if (f_ + "(" in text or (f_ in "^/" and f_ in text)))
             J_ = jac.toarray() if hasattr(jac, "toarray") else np.asarray(jac)
@@ -739,6 +745,15 @@ def run_case(c, case):
         for n, (lvl, chg) in case["point"].items():
             assign[n] = (lvl, chg)
         m.assign(**assign)
+        if spec["params"] and len(case["source"]) % 3 == 0:
+            # a second parameter variant with other parameter values: systemize() returns one system per variant, each the
+            # derivative at ITS variant's values (the monitor reads the point from the variant it is given)
+            try:
+                m.alter_num_variants(2)
+                m[1].assign(**{p["name"]: float(p["value"]) * 0.8 + 0.03 for p in spec["params"]})
+                c.note("systemize:two-parameter-variants")
+            except Exception as exc:
+                c.note(f"systemize:second-variant-not-built:{type(exc).__name__}")
         # 1. systemize at the assigned point
         try:
             with rt.quiet(), np.errstate(all="ignore"):
@@ -897,9 +912,29 @@ def run_terminator_case(c, case):
         db[sh][ir.qq(2020, 1)] = float(rng.normal(0, 0.03))
         db["ant_" + sh][ir.qq(2020, 1) + (T - 1)] = float(rng.normal(0, 0.03))
         _LAST_EV.clear()
+        kw = {}
+        if case["seed"] % 2 == 1 and len(spec["tvars"]) >= 2:
+            # with a simulation plan the unknowns of the stacked system are no longer "all variables at all dates" in their
+            # natural order: an exogenized variable leaves, an endogenized shock enters (anticipated swap at one date, sometimes
+            # a second, unanticipated one at the first date); the terminal-condition correction must follow the same columns
+            try:
+                plan = ir.SimulationPlan(m, span)
+                t0 = ir.qq(2020, 1) + int(case["seed"] // 2 % T)
+                v0 = spec["tvars"][int(case["seed"] // 4 % len(spec["tvars"]))]["name"]
+                plan.exogenize_anticipated(t0, v0)
+                plan.endogenize_anticipated(t0, "ant_" + sh)
+                db[v0][t0] = float(db[v0].get_data(t0)[0, 0]) * 1.01
+                if case["seed"] % 3 == 0 and len(spec["tshocks"]) >= 2:
+                    v1 = spec["tvars"][int((case["seed"] // 4 + 1) % len(spec["tvars"]))]["name"]
+                    plan.exogenize_unanticipated(ir.qq(2020, 1), v1)
+                    plan.endogenize_unanticipated(ir.qq(2020, 1), spec["tshocks"][1]["name"])
+                kw["plan"] = plan
+                c.note("terminator-case:with-simulation-plan")
+            except Exception as exc:
+                c.note(f"terminator-case:plan-not-built:{type(exc).__name__}")
         try:
             with rt.quiet(), np.errstate(all="ignore"):
-                m.simulate(db, span, method="stacked_time", when_fails="silent", solver_settings={"step_tolerance": float("inf")})
+                m.simulate(db, span, method="stacked_time", when_fails="silent", solver_settings={"step_tolerance": float("inf")}, **kw)
         except Exception as exc:
             c.inconc(f"terminator-case:simulate-raised:{type(exc).__name__}")
         _drive_evaluator_history(c, rng)
